@@ -25,6 +25,28 @@ module, otherwise the checker of the install call that loaded the module), at
 every point of the history - also after the hook is gone and while only other
 hooks are installed.
 
+Foreign finders (family F): other people's meta-path finders that can load the forest's
+modules themselves - a thin wrapper delegating to PathFinder that hands back PathFinder's
+spec (an import logger) or a spec with its own loader that executes the source unmodified
+(the shape of pytest's assertion rewriter) - are put on sys.meta_path (at the front, or
+just before PathFinder) and taken off again at every position of the history: before,
+between and after the install calls.  Oracle: while a hook naming the module is active a
+first import IS instrumented, whoever else is on sys.meta_path; only a foreign finder
+that was put at the FRONT of sys.meta_path AFTER every covering install call is a
+don't-care (the import protocol gives it the module first; nothing the library could do).
+The same through the real thing: `python -m pytest --jaxtyping-packages=...` sessions in
+a subprocess over a project whose test modules and a lazily collected conftest live
+beneath the named package (pytest's AssertionRewritingHook sits at sys.meta_path[0]
+before pytest_configure runs); every module of the project is observed at session end.
+
+IPython: besides the breadth-first search over {magic A, magic B, cell g0, cell g1}, long
+sessions (many cells after one magic, with and without a garbage collection between cells,
+one-def cells and cells that are a whole forest module) - the magic keeps ONE transformer
+for all later cells, so the n-th cell is an input class of its own.  An IPython
+observation that a re-run of the same history does not reproduce is reported under the
+key suffix ':unstable' (it depends on interpreter state such as object addresses), never
+as a harness error.
+
 Undo and reset restore the WHOLE state of the hook machinery (worlds.HookState:
 globals and class attributes of the hook modules, attribute dictionaries of the
 live handles / finders / typechecker objects, contents of all mutable containers
@@ -34,7 +56,11 @@ execute it, whatever bookkeeping the implementation keeps.
 from __future__ import annotations
 
 import itertools
+import json
+import os
 import shutil
+import subprocess
+import sys
 import tempfile
 
 from .. import common, worlds
@@ -53,8 +79,13 @@ ALPHABET = (
     "operations: install(names, checker) with checkers {spy A, spy B, None} through the routes api(str) / api(old tuple form) / with-block and, while no hook "
     "is active, the pytest option (plain and with blanks around the commas); import of each of the 12 forest modules; uninstall and leave-with-block(+second "
     "uninstall) of every live handle; at most 2 hooks active at once; after every operation every loaded module is called (and after every operation but import "
-    "its factories of call-time definitions too)"
+    "its factories of call-time definitions too); family F adds: foreign finder comes (kind passthrough / rewriter, placed at the front of sys.meta_path / just "
+    "before PathFinder) and goes, at most 1 at a time; pytest sessions: the real `python -m pytest --jaxtyping-packages=...` in a subprocess; IPython sessions: "
+    "magic / one-def cell / forest-module cell / garbage collection"
 )
+
+FOREIGN = [(k, p) for k in worlds.FOREIGN_KINDS for p in worlds.FOREIGN_PLACES]
+F_MODULES_QUICK = ["foo.a", "foo.sub.b", "foobar", "fo", "bar.baz", "qux"]
 
 
 def families(tier):
@@ -90,7 +121,29 @@ def families(tier):
                 "active hook, the 5 single names for the second; spelling variants and the pytest route at positions <= 2; first spy of a history is A; "
                 "no install at position 4; call-time definitions: make() on every newly loaded module, make() + make(True) on every loaded module after every "
                 "install / uninstall / leave",
-            )
+            ),
+            dict(
+                name="F",
+                depth=4,
+                first=SINGLES,
+                second=SINGLES,
+                variants_upto=0,
+                pytest_upto=2,
+                sym=True,
+                no_install_from=4,
+                build_new=False,
+                nested="off",
+                foreign=FOREIGN,
+                max_foreign=1,
+                need_foreign=True,
+                pytest_needs_foreign=True,
+                leave=False,
+                modules=F_MODULES_QUICK,
+                text="foreign finders: histories of length <= 4 that contain a foreign-finder operation (add kind {passthrough, rewriter} x place {front of sys.meta_path, "
+                "just before PathFinder}; remove; at most 1 present; none as the last operation); name sets: the 5 single names for both hooks; routes api(str) and, at "
+                "positions <= 2 while no hook is active and a foreign finder is present (pytest's situation), the pytest option; first spy of a history is A; uninstall (no leave variant); imports of "
+                + ", ".join(F_MODULES_QUICK) + " (which load their parents and qux's dependencies); call-time definitions: make() on every newly loaded module only",
+            ),
         ]
     return [
         dict(
@@ -124,6 +177,26 @@ def families(tier):
             "first spy of a history is A; no install at position 5; call-time definitions: make() on every newly loaded module, make() + make(True) on every loaded "
             "module after every install / uninstall / leave",
         ),
+        dict(
+            name="F",
+            depth=4,
+            first=SINGLES + QUICK_PAIRS,
+            second=SINGLES,
+            variants_upto=0,
+            pytest_upto=2,
+            sym=True,
+            no_install_from=4,
+            build_new=False,
+            nested="off",
+            foreign=FOREIGN,
+            max_foreign=1,
+            need_foreign=True,
+            leave=False,
+            text="foreign finders: histories of length <= 4 that contain a foreign-finder operation (add kind {passthrough, rewriter} x place {front of sys.meta_path, "
+            "just before PathFinder}; remove; at most 1 present; none as the last operation); name sets: the 5 single names and the quick pairs for the first hook, the 5 "
+            "single names for the second; routes api(str) and, at positions <= 2 while no hook is active, the pytest option; first spy of a history is A; uninstall "
+            "(no leave variant); imports of all 12 forest modules; call-time definitions: make() on every newly loaded module only",
+        ),
     ]
 
 
@@ -131,12 +204,18 @@ def covers(names, m):
     return any(m == n or m.startswith(n + ".") for n in names)
 
 
-def enabled_ops(records, P, pos):
-    """Operations offered in a state (records = [(names, ck, has_handle, alive)]),
-    `pos` = 1-based position of the operation in the history."""
+def enabled_ops(records, P, pos, foreign=(), hist=()):
+    """Operations offered in a state (records = [(names, ck, has_handle, alive, t)], foreign =
+    [(kind, place, alive, t)]), `pos` = 1-based position of the operation in the history."""
     alive = [r for r in records if r[3]]
     ops = []
-    if len(alive) < MAX_ACTIVE and pos < P["no_install_from"]:
+    only_foreign_add = False
+    if P.get("need_foreign") and not any(o[0] == "foreign" for o in hist):
+        # a family about foreign finders: histories without one belong to the other families
+        if pos >= P["depth"]:
+            return []
+        only_foreign_add = pos == P["depth"] - 1
+    if not only_foreign_add and len(alive) < MAX_ACTIVE and pos < P["no_install_from"]:
         variants = pos <= P["variants_upto"]
         used_a = any(r[1] == "A" for r in records)
         for ns in P["first"] if not alive else P["second"]:
@@ -148,16 +227,26 @@ def enabled_ops(records, P, pos):
                     if ck is not None:
                         ops.append(("install", "api", list(ns), ck, "tuple"))
                     ops.append(("install", "with", list(ns), ck, "str"))
-                if ck is not None and not alive and pos <= P["pytest_upto"]:
+                if ck is not None and not alive and pos <= P["pytest_upto"] and (not P.get("pytest_needs_foreign") or any(f[2] for f in foreign)):
                     ops.append(("install", "pytest", list(ns), ck, "plain"))
                     if variants:
                         ops.append(("install", "pytest", list(ns), ck, "spaced"))
-    for m in worlds.C11_MODULES:
-        ops.append(("import", m))
-    for i, r in enumerate(records):
-        if r[3] and r[2]:
-            ops.append(("uninstall", i))
-            ops.append(("leave", i))
+    if not only_foreign_add:
+        for m in P.get("modules") or worlds.C11_MODULES:
+            ops.append(("import", m))
+        for i, r in enumerate(records):
+            if r[3] and r[2]:
+                ops.append(("uninstall", i))
+                if P.get("leave", True):
+                    ops.append(("leave", i))
+    if pos < P["depth"]:  # a foreign finder that comes or goes as the last operation is observed by nothing
+        f_alive = [i for i, f in enumerate(foreign) if f[2]]
+        if len(f_alive) < P.get("max_foreign", 0):
+            for kind, place in P.get("foreign") or ():
+                ops.append(("foreign", "add", kind, place))
+        if not only_foreign_add:
+            for i in f_alive:
+                ops.append(("foreign", "remove", i))
     return ops
 
 
@@ -167,23 +256,41 @@ def w_alive(w):
 
 
 def _records(w):
-    return [(r["names"], r["ck"], r["handle"] is not None, r["alive"]) for r in w.records]
+    return [(r["names"], r["ck"], r["handle"] is not None, r["alive"], r["t"]) for r in w.records]
+
+
+def _foreign(w):
+    return [(r["kind"], r["place"], r["alive"], r["t"]) for r in w.foreign]
+
+
+def foreign_may_take(cov, foreign):
+    """The don't-care of the foreign-finder dimension: module covered by the live installs `cov`; True iff some
+    foreign finder on sys.meta_path was put at its FRONT after every one of them (then the import protocol asks
+    it first and the library has no say).  A foreign finder that was there BEFORE a covering install call, or that
+    sits just before PathFinder, never excuses a plain load."""
+    return bool(cov) and any(f[2] and f[1] == "front" and all(r[4] < f[3] for r in cov) for f in foreign)
 
 
 def _tag(ck):
     return ck or "n"
 
 
-def _hooks_desc(records):
-    live = ";".join("+".join(n) + "=" + _tag(ck) for n, ck, _, a in records if a)
-    dead = ";".join("+".join(n) + "=" + _tag(ck) for n, ck, _, a in records if not a)
-    return (live or "none") + ("|uninstalled:" + dead if dead else "")
+def _hooks_desc(records, foreign=()):
+    live = ";".join("+".join(r[0]) + "=" + _tag(r[1]) for r in records if r[3])
+    dead = ";".join("+".join(r[0]) + "=" + _tag(r[1]) for r in records if not r[3])
+    out = (live or "none") + ("|uninstalled:" + dead if dead else "")
+    fl = [f for f in foreign if f[2]]
+    if fl:
+        # in the order of the history: which install calls were made before / after the foreign finder came
+        ev = sorted([(r[4], "+".join(r[0]) + "=" + _tag(r[1])) for r in records if r[3]] + [(f[3], f"~{f[0]}@{f[1]}") for f in fl])
+        out += "|order:" + ">".join(e for _, e in ev)
+    return out
 
 
-def judge(records, pre, op, out, tags, extra):
-    """records/pre describe the state BEFORE the operation (model: which installs
-    are alive, tag of every loaded module); out/tags/extra are what the real
-    machinery did.  -> [(kind, module, detail)]"""
+def judge(records, pre, op, out, tags, extra, foreign=()):
+    """records/pre/foreign describe the state BEFORE the operation (model: which installs
+    are alive, tag of every loaded module, which foreign finders are on sys.meta_path);
+    out/tags/extra are what the real machinery did.  -> [(kind, module, detail)]"""
     probs = []
     alive = [r for r in records if r[3]]
     dead = [r for r in records if not r[3]]
@@ -196,6 +303,8 @@ def judge(records, pre, op, out, tags, extra):
         for x in out["new"]:
             cov = [r for r in alive if covers(r[0], x)]
             allowed = {_tag(r[1]) for r in cov} or {"p"}
+            if foreign_may_take(cov, foreign):
+                allowed = allowed | {"p"}
             t = tags.get(x)
             if t not in allowed:
                 if allowed == {"p"}:
@@ -206,7 +315,7 @@ def judge(records, pre, op, out, tags, extra):
                     else:
                         kind = "instrumented-outside-names"
                 elif t == "p":
-                    kind = "not-instrumented"
+                    kind = "not-instrumented-foreign-finder-present" if any(f[2] for f in foreign) else "not-instrumented"
                 else:
                     kind = "wrong-checker"
                 probs.append((kind, x, f"observed tag {t!r}, allowed {sorted(allowed)}"))
@@ -218,7 +327,7 @@ def judge(records, pre, op, out, tags, extra):
             cids = {c for _, c in out["decos"].get(x, ())}
             if (t in ("A", "B") and cids != {t}) or (t not in ("A", "B") and cids):
                 probs.append(("decoration-log", x, f"f runs as {t!r} but at import the spies were handed functions of this module by {sorted(cids)}"))
-    else:
+    elif op[0] != "foreign":
         if out["outcome"] not in ("ok", "refused"):
             probs.append((op[0] + "-raised", op[1] if op[0] == "install" else "-", out["outcome"]))
     for m, t0 in pre.items():
@@ -244,8 +353,8 @@ NESTED = [
 ]
 
 
-def vkey(kind, module, records):
-    return f"C11:{kind}:{module}:hooks[{_hooks_desc(records)}]"
+def vkey(kind, module, records, foreign=()):
+    return f"C11:{kind}:{module}:hooks[{_hooks_desc(records, foreign)}]"
 
 
 # ------------------------------------------------------------------------ workers
@@ -266,12 +375,14 @@ def _world(tmp):
 def _step(w, op, records, pre, nested="full", build_new=True):
     """nested = "full": after every operation but import, make() AND make(True) of every loaded module
     (after uninstall / leave make()'s def gets the ill-typed call under a spy too); "make": make() only
-    (well-typed call tells the spy, ill-typed call for spy-less modules)."""
+    (well-typed call tells the spy, ill-typed call for spy-less modules); "off": the factories are probed on
+    newly loaded modules only."""
+    foreign = _foreign(w)
     out = w.apply(op)
     gone = op[0] in ("uninstall", "leave")
     full = nested == "full"
-    key, tags, extra = w.observe(new=out["new"], make_all=(op[0] != "import"), strict=gone, build_new=build_new and full, build_all=full, nested_illtyped=gone and full)
-    return out, key, tags, extra, judge(records, pre, op, out, tags, extra)
+    key, tags, extra = w.observe(new=out["new"], make_all=(op[0] != "import" and nested != "off"), strict=gone, build_new=build_new and full, build_all=full, nested_illtyped=gone and full)
+    return out, key, tags, extra, judge(records, pre, op, out, tags, extra, foreign)
 
 
 def _expand(job):
@@ -280,10 +391,16 @@ def _expand(job):
     common.bind_repo()
     if job.get("kind") == "cells":
         return _cells(job)
+    if job.get("kind") == "sessions":
+        return _sessions_job(job)
+    if job.get("kind") == "pytest":
+        return _pytest_job(job)
     P = job["P"]
     w = _world(job["tmp"])
     stats = dict(transitions=0, imports=0, loads=0, instrumented_loads=0, plain_loads_under_active_hook=0, lookalike_left_plain=0, dontcare=0, after_uninstall_loads=0, refused=0, replays=0,
-                 nested_probes=0, nested_probes_after_the_loading_hook_is_gone=0, nested_probes_while_only_other_hooks_are_active=0)
+                 nested_probes=0, nested_probes_after_the_loading_hook_is_gone=0, nested_probes_while_only_other_hooks_are_active=0,
+                 foreign_ops=0, loads_with_foreign_finder_present=0, instrumented_loads_with_foreign_finder_present=0, instrumented_loads_hook_installed_after_foreign_finder=0,
+                 dontcare_loads_foreign_finder_put_in_front_later=0)
     first, viols, samples = {}, [], []
     order = []
     for idx, key0, hist in job["states"]:
@@ -295,9 +412,11 @@ def _expand(job):
         if key != key0:
             raise common.HarnessError(f"C11: replay of {hist} reached {key!r}, the search had recorded {key0!r}")
         records = _records(w)
+        foreign = _foreign(w)
+        f_alive = [f for f in foreign if f[2]]
         pos = len(hist) + 1
         snap = w.snapshot()
-        for op in enabled_ops(records, P, pos):
+        for op in enabled_ops(records, P, pos, foreign, hist):
             out, k2, t2, extra, probs = _step(w, op, records, tags, P["nested"], P["build_new"])
             stats["transitions"] += 1
             alive = [r for r in records if r[3]]
@@ -315,6 +434,15 @@ def _expand(job):
                 for x in out["new"]:
                     stats["loads"] += 1
                     cov = {_tag(r[1]) for r in alive if covers(r[0], x)}
+                    if f_alive:
+                        stats["loads_with_foreign_finder_present"] += 1
+                        covr = [r for r in alive if covers(r[0], x)]
+                        if foreign_may_take(covr, foreign):
+                            stats["dontcare_loads_foreign_finder_put_in_front_later"] += 1
+                        elif t2.get(x) != "p":
+                            stats["instrumented_loads_with_foreign_finder_present"] += 1
+                            if any(r[4] > f[3] for r in covr for f in f_alive):
+                                stats["instrumented_loads_hook_installed_after_foreign_finder"] += 1
                     if t2.get(x) != "p":
                         stats["instrumented_loads"] += 1
                     elif alive:
@@ -326,14 +454,16 @@ def _expand(job):
                     if not cov and any(covers(r[0], x) for r in records if not r[3]):
                         stats["after_uninstall_loads"] += 1
                 if len(samples) < 3 and len({t2.get(x) for x in out["new"]}) >= 2 and not probs and len(hist) >= 2:
-                    samples.append(dict(history=hist + [op], hooks=_hooks_desc(records), newly_loaded={x: t2.get(x) for x in out["new"]}, state=k2))
+                    samples.append(dict(history=hist + [op], hooks=_hooks_desc(records, foreign), newly_loaded={x: t2.get(x) for x in out["new"]}, state=k2))
+            elif op[0] == "foreign":
+                stats["foreign_ops"] += 1
             elif out["outcome"] == "refused":
                 stats["refused"] += 1
             for kind, module, detail in probs:
                 if len(viols) < 40:
                     viols.append(
                         Violation(
-                            key=vkey(kind, module, records),
+                            key=vkey(kind, module, records, foreign),
                             what=f"history {hist + [op]}: {module}: {kind}: {detail}",
                             replay=dict(kind="history", history=hist + [op], expect=[kind, module]),
                         ).to_json()
@@ -350,43 +480,65 @@ def _expand(job):
 # ----------------------------------------------------------------- IPython cells
 
 CELL_OPS = [("magic", "A"), ("magic", "B"), ("cell", 0), ("cell", 1)]
+CELL_ATTEMPTS = 3
 
 
-def _cells_run(cw, hist):
-    """-> (state, problems of the LAST operation).  State = (magics so far as a
-    set reduced to what matters: the latest, and whether both were used),
-    tags of g0/g1."""
+def _cells_exec(cw, hist):
+    """Run one IPython history from a reset shell, judging every operation.
+    -> (state, [problems of operation i]).  State = (magics so far reduced to what
+    matters: the latest, and which were used), tags of everything the cells defined."""
     cw.reset()
     latest, used = None, set()
     pre = {}
-    probs = []
+    steps = []
     for i, op in enumerate(hist):
         probs = []
         outcome = cw.apply(op)
         tags = cw.observe()
         if outcome != "ok":
             probs.append((op[0] + "-raised", "cell", outcome))
+        own = ()
         if op[0] == "magic":
             latest = op[1]
             used.add(op[1])
-            changed = {k: (pre.get(k), tags.get(k)) for k in pre if tags.get(k) != pre[k]}
-            if changed:
-                probs.append(("checker-changed", "cell", f"{changed} after {op}"))
-        else:
-            g = f"g{op[1]}"
+        elif op[0] in ("cell", "rich"):
+            g = ("g" if op[0] == "cell" else "r") + str(op[1])
+            own = (g, g + ".D", g + ".make", g + ".build")
             # the statement: checked by the checker given to the install call that
             # loaded them; a later magic replaces the earlier one in the extension,
             # which the statement does not settle -> any magic used so far is allowed
             allowed = set(used) if used else {"p"}
-            if tags.get(g) not in allowed:
-                kind = "not-instrumented" if tags.get(g) == "p" else ("instrumented-outside-names" if allowed == {"p"} else "wrong-checker")
-                probs.append((kind, "cell", f"{g} runs as {tags.get(g)!r}, allowed {sorted(allowed)} (latest magic {latest})"))
-            changed = {k: (pre.get(k), tags.get(k)) for k in pre if k != g and tags.get(k) != pre[k]}
-            if changed:
-                probs.append(("checker-changed", "cell", f"{changed} after {op}"))
+            t = tags.get(g)
+            if t not in allowed:
+                kind = "not-instrumented" if t == "p" else ("instrumented-outside-names" if allowed == {"p"} else "wrong-checker")
+                probs.append((kind, "cell", f"{g} runs as {t!r}, allowed {sorted(allowed)} (latest magic {latest})"))
+            elif op[0] == "rich":
+                want = {g + ".D": t if t in ("A", "B") else "noraise", g + ".make": t, g + ".build": t}
+                got = {k: tags.get(k) for k in want}
+                if got != want:
+                    probs.append(("partial-instrumentation", "cell", f"{g} runs as {t!r} but the cell's dataclass / def in a function body / class in a function body + method give {got}"))
+        # everything defined by EARLIER cells (incl. what their factories define now) keeps its checker
+        changed = {k: (pre.get(k), tags.get(k)) for k in pre if k not in own and tags.get(k) != pre[k]}
+        if changed:
+            probs.append(("checker-changed", "cell", f"{changed} after {op}"))
         pre = tags
+        steps.append(probs)
     state = f"magic={latest},used={'+'.join(sorted(used))}|" + ";".join(f"{k}:{v}" for k, v in sorted(pre.items()))
-    return state, probs
+    return state, steps
+
+
+def _cells_run(cw, hist):
+    """-> (state, problems of the LAST operation)."""
+    state, steps = _cells_exec(cw, hist)
+    return state, (steps[-1] if steps else [])
+
+
+def _cell_violation(kind, hist, detail):
+    return Violation(key=f"C11:ipython:{kind}", what=f"IPython history {_short(hist)}: {detail}", replay=dict(kind="cells", history=hist, expect=[kind, "cell"], attempts=CELL_ATTEMPTS)).to_json()
+
+
+def _short(hist):
+    return hist if len(hist) <= 8 else f"[{len(hist)} operations: {hist[:3]} ... {hist[-3:]}]".replace("'", "")
 
 
 def _cells(job):
@@ -403,7 +555,7 @@ def _cells(job):
                 state, probs = _cells_run(cw, h2)
                 trans += 1
                 for kind, module, detail in probs:
-                    viols.append(Violation(key=f"C11:ipython:{kind}", what=f"IPython history {h2}: {detail}", replay=dict(kind="cells", history=h2, expect=[kind, module])).to_json())
+                    viols.append(_cell_violation(kind, h2, detail))
                 if state not in seen:
                     seen[state] = h2
                     nxt.append(h2)
@@ -412,6 +564,198 @@ def _cells(job):
         frontier = nxt
     cw.reset()
     return dict(cells=dict(states=len(seen), transitions=trans), viols=viols[:20], samples=samples)
+
+
+# ---- IPython sessions: the n-th cell after one magic
+
+SESSION_MAGICS = ["A", "A,B", "A..B"]  # one magic; two magics before the first cell; the second magic in the middle of the session
+SESSION_CELLS = ["cell", "rich", "mixed"]  # one-def cells g0 g1 g0 ...; forest-module cells r0 r1 r0 ...; alternately
+
+
+def sessions(n):
+    out = []
+    for magics in SESSION_MAGICS:
+        for pattern in SESSION_CELLS:
+            for gc in (False, True):
+                hist = [["magic", "A"]] + ([["magic", "B"]] if magics == "A,B" else [])
+                for i in range(n):
+                    if magics == "A..B" and i == n // 2:
+                        hist.append(["magic", "B"])
+                    kind = pattern if pattern != "mixed" else ("cell", "rich")[i % 2]
+                    k = (i // (2 if pattern == "mixed" else 1)) % 2
+                    hist.append([kind, k])
+                    if gc:
+                        hist.append(["gc"])
+                out.append(dict(magics=magics, cells=pattern, gc=gc, history=hist))
+    return out
+
+
+def _sessions_job(job):
+    cw = worlds.CellWorld()
+    viols, samples = [], []
+    st = dict(sessions=0, operations=0, cells=0, cells_after_the_first_of_a_magic=0)
+    for ses in job["sessions"]:
+        hist = ses["history"]
+        state, steps = _cells_exec(cw, hist)
+        st["sessions"] += 1
+        st["operations"] += len(hist)
+        since = None
+        for i, (op, probs) in enumerate(zip(hist, steps)):
+            if op[0] == "magic":
+                since = 0
+            elif op[0] in ("cell", "rich"):
+                st["cells"] += 1
+                if since:
+                    st["cells_after_the_first_of_a_magic"] += 1
+                since = (since or 0) + 1
+            for kind, module, detail in probs:
+                if len(viols) < 20:
+                    viols.append(_cell_violation(kind, hist[: i + 1], detail))
+        if not samples and not any(steps):
+            samples.append(dict(ipython_session=dict(magics=ses["magics"], cells=ses["cells"], gc_between_cells=ses["gc"], operations=len(hist)), final_state=state[:300]))
+    cw.reset()
+    return dict(sessions=st, viols=viols, samples=samples)
+
+
+# ---- the real pytest: test modules beneath a hooked package
+
+PT_HEAD = "import numpy as np\nfrom jaxtyping import Float\n"
+PT_TEST = "\n\ndef test_ok():\n    assert f(np.zeros(2, np.float32), np.zeros(2, np.float32)) is not None\n"
+PT_FILES = {
+    "hp/__init__.py": "",
+    "hp/core.py": "",
+    "hp/test_inner.py": "import hp.core\n" + PT_TEST,
+    "hp/sub/__init__.py": "",
+    "hp/sub/conftest.py": "",  # below the directory given to pytest: collected (imported) after pytest_configure
+    "hp/sub/test_deep.py": "import hp.core\n" + PT_TEST,
+    "hpx/__init__.py": "",
+    "hpx/test_x.py": PT_TEST,
+    "tests/test_outer.py": "import hp.core\nimport hp.sub\nimport hpx\n" + PT_TEST,
+}
+PT_MODULES = ["hp", "hp.core", "hp.test_inner", "hp.sub", "hp.sub.conftest", "hp.sub.test_deep", "hpx", "hpx.test_x", "test_outer"]
+PT_BENEATH = ["hp.test_inner", "hp.sub.conftest", "hp.sub.test_deep", "hpx.test_x", "test_outer"]  # what pytest's own rewriting hook wants to load
+PT_RECORDER = """import json, os, sys
+sys.modules.setdefault("jax", None)  # a jax-less interpreter (supported by jaxtyping); saves a second per session
+import vf.fixtures.spyck  # the checker string names an attribute of a sub-module: the user's side of the contract is that it is imported
+
+
+def pytest_sessionfinish(session, exitstatus):
+    import jaxtyping
+    from vf import worlds
+
+    tags = {}
+    for m in json.loads(os.environ["C11_PT_MODULES"]):
+        mod = sys.modules.get(m)
+        if mod is not None:
+            try:
+                tags[m] = worlds.probe_callable(mod.f)
+            except Exception as e:
+                tags[m] = "probe-exc:" + type(e).__name__
+    meta = [getattr(type(f), "__name__", "?") if not isinstance(f, type) else f.__name__ for f in sys.meta_path]
+    with open(os.environ["C11_PT_OUT"], "w") as fh:
+        json.dump(dict(tags=tags, meta_path=meta, jaxtyping=os.path.abspath(jaxtyping.__file__), exitstatus=int(exitstatus)), fh)
+"""
+
+
+def pytest_cases(tier):
+    cases = [(), ("hp",), ("hp.sub",), ("hp.test_inner", "hpx")]
+    if tier != "quick":
+        cases += [("hpx.test_x",), ("hp.sub.conftest",), ("hp.core", "test_outer"), ("h",), ("hp.sub.test_deep", "hp.test")]
+    return [list(c) for c in cases]
+
+
+def _pytest_session(names, ck="A"):
+    """One real pytest session in a subprocess.  -> dict(rc, out (recorder's json or None), tail)"""
+    from ..fixtures import spyck
+
+    root = tempfile.mkdtemp(prefix="vf_c11pt_")
+    try:
+        proj = os.path.join(root, "proj")
+        for rel, extra in PT_FILES.items():
+            path = os.path.join(proj, rel)
+            os.makedirs(os.path.dirname(path), exist_ok=True)
+            with open(path, "w") as f:
+                f.write(PT_HEAD + extra.replace(PT_TEST, "") + worlds.FUNC_SRC + (PT_TEST if PT_TEST in extra else ""))
+        with open(os.path.join(proj, "conftest.py"), "w") as f:
+            f.write(PT_RECORDER)
+        with open(os.path.join(proj, "pytest.ini"), "w") as f:
+            f.write("[pytest]\n")
+        outp = os.path.join(root, "out.json")
+        env = dict(os.environ)
+        env.update(PYTHONPATH=os.pathsep.join([common.REPO, common.VERIF_DIR]), VERIF_REPO=common.REPO, PYTHONDONTWRITEBYTECODE="1", C11_PT_OUT=outp, C11_PT_MODULES=json.dumps(PT_MODULES))
+        env.pop("PYTEST_ADDOPTS", None)
+        env.pop("PYTEST_PLUGINS", None)
+        cmd = [sys.executable, "-B", "-m", "pytest", "-q", "-p", "no:cacheprovider", "--rootdir", proj, "-c", os.path.join(proj, "pytest.ini")]
+        if names:
+            cmd.append("--jaxtyping-packages=" + ",".join(list(names) + [spyck.PATH[ck]]))
+        cmd.append(proj)
+        try:
+            p = subprocess.run(cmd, cwd=proj, env=env, capture_output=True, text=True, timeout=600)
+        except subprocess.TimeoutExpired as e:
+            return dict(rc=-1, out=None, tail=f"no end after 600 s: {str(e.stdout or '')[-300:]}")
+        out = None
+        if os.path.exists(outp):
+            with open(outp) as f:
+                out = json.load(f)
+        return dict(rc=p.returncode, out=out, tail=(p.stdout + p.stderr)[-600:])
+    finally:
+        shutil.rmtree(root, ignore_errors=True)
+
+
+def _pytest_judge(names, res, ck="A"):
+    """-> [(kind, module, detail)]"""
+    probs = []
+    out = res["out"]
+    if out is None:
+        return [("pytest-session-failed", "-", f"exit status {res['rc']}, no observation written: {res['tail'][-300:]}")]
+    for m in PT_MODULES:
+        want = ck if covers(names, m) else "p"
+        t = out["tags"].get(m)
+        if t is None:
+            probs.append(("pytest-module-not-loaded", m, f"exit status {res['rc']}: {res['tail'][-200:]}"))
+        elif t != want:
+            if want == "p":
+                kind = "instrumented-by-string-prefix" if any(m.startswith(n) for n in names) else "instrumented-outside-names"
+            else:
+                kind = "not-instrumented" if t == "p" else "wrong-checker"
+            probs.append((kind, m, f"observed tag {t!r}, expected {want!r}; sys.meta_path at session end {out['meta_path']}"))
+    return probs
+
+
+def _pytest_run_case(names):
+    res = _pytest_session(names)
+    out = res["out"]
+    if out is not None and not out["jaxtyping"].startswith(common.REPO + os.sep):
+        raise common.HarnessError(f"C11: the pytest subprocess imported jaxtyping from {out['jaxtyping']}, not from {common.REPO}")
+    if not names and (out is None or res["rc"] != 0):
+        raise common.HarnessError(f"C11: the pytest session WITHOUT --jaxtyping-packages does not run (exit {res['rc']}): {res['tail']}")
+    return res, _pytest_judge(names, res)
+
+
+def _pytest_job(job):
+    names = job["names"]
+    res, probs = _pytest_run_case(names)
+    viols = []
+    for kind, module, detail in probs:
+        viols.append(
+            Violation(
+                key=f"C11:pytest-session:{kind}:{module}:names[{'+'.join(names) or 'none'}]",
+                what=f"python -m pytest --jaxtyping-packages={','.join(names)},<spy A> on the project {sorted(PT_FILES)}: {module}: {kind}: {detail}",
+                replay=dict(kind="pytest", names=names, expect=[kind, module]),
+            ).to_json()
+        )
+    tags = (res["out"] or {}).get("tags", {})
+    st = dict(
+        sessions=1,
+        modules_observed=len(tags),
+        instrumented=sum(1 for t in tags.values() if t != "p"),
+        instrumented_test_modules_and_conftests_beneath_a_named_package=sum(1 for m in PT_BENEATH if tags.get(m, "p") != "p"),
+        lookalike_left_plain=sum(1 for m, t in tags.items() if t == "p" and not covers(names, m) and any(m.startswith(n) for n in names)),
+    )
+    sample = None
+    if names and not probs and st["instrumented_test_modules_and_conftests_beneath_a_named_package"]:
+        sample = dict(pytest_session=f"--jaxtyping-packages={','.join(names)},<spy A>", observed=tags, meta_path_at_session_end=res["out"]["meta_path"])
+    return dict(pytest=st, viols=viols, samples=[sample] if sample else [])
 
 
 # ------------------------------------------------------------------------- driver
@@ -447,12 +791,12 @@ def run(ctx):
         shutil.rmtree(tmp, ignore_errors=True)
 
 
-def _bfs(ctx, P, tmp, pool, sw, with_cells):
+def _bfs(ctx, P, tmp, pool, sw, side_jobs=()):
     init_key = "|"
     seen = {init_key}
     frontier = [(init_key, [])]
     stats_all, viols, samples, per_level = [], [], [], []
-    cells_out = None
+    side = []
     n_jobs = common.NCPU * 4
     stopped = None
     for depth in range(1, P["depth"] + 1):
@@ -460,13 +804,13 @@ def _bfs(ctx, P, tmp, pool, sw, with_cells):
         jobs = []
         for idxs in common.shards(len(frontier), n_jobs, ctx.seed):
             jobs.append(dict(P=P, tmp=tmp, last=last, states=[(i, frontier[i][0], frontier[i][1]) for i in idxs]))
-        if depth == 1 and with_cells:
-            jobs.append(dict(kind="cells", depth=with_cells))
+        if depth == 1:
+            jobs = list(side_jobs) + jobs  # the long ones first
         outs = pool.map(_expand, jobs)
         new_states, cand, level_tr = [], [], 0
         for o in outs:
-            if "cells" in o:
-                cells_out = o
+            if "stats" not in o:
+                side.append(o)
                 continue
             stats_all.append(o["stats"])
             level_tr += o["stats"]["transitions"]
@@ -492,7 +836,34 @@ def _bfs(ctx, P, tmp, pool, sw, with_cells):
             break
         if not frontier:
             break
-    return dict(seen=seen, stats=common.merge_counts(stats_all), viols=viols, samples=samples, per_level=per_level, stopped=stopped, cells=cells_out)
+    return dict(seen=seen, stats=common.merge_counts(stats_all), viols=viols, samples=samples, per_level=per_level, stopped=stopped, side=side)
+
+
+def _confirm_cells(cell_viols):
+    """IPython observations: re-run each (one per key, shortest history first) from a reset shell, up to
+    CELL_ATTEMPTS times.  What does not show again is still an observation of the real code on a legitimate
+    history - it is reported, under '<key>:unstable' (outcome depends on interpreter state such as the
+    addresses of freed objects), with a replay that tries more often and lets the session go on with more
+    cells of the same kind (see replay)."""
+    out, done = [], set()
+    cell_viols = sorted(cell_viols, key=lambda v: (len(v["replay"]["history"]), v["key"], repr(v["replay"])))
+    for v in cell_viols:
+        if v["key"] in done or len(done) >= 12:
+            continue
+        done.add(v["key"])
+        r = replay(v["replay"])
+        if r["violates"]:
+            out.append(Violation(**v))
+        else:
+            out.append(
+                Violation(
+                    key=v["key"] + ":unstable",
+                    what=v["what"] + f" [observed during the search; {CELL_ATTEMPTS} re-runs of the same history from a reset shell did not show it again: the outcome "
+                    "depends on interpreter state that is not part of the history (e.g. addresses of freed objects)]",
+                    replay=dict(v["replay"], attempts=5, stretch=60),
+                )
+            )
+    return out
 
 
 def _run(ctx, tmp, pool, sw):
@@ -500,24 +871,49 @@ def _run(ctx, tmp, pool, sw):
     seen_all = set()
     stats_all, viols, samples, per_level, fam_cov = [], [], [], [], []
     cells_cov, stopped = None, None
+    ses_cov, pt_cov = [], []
+    cell_viols, pt_viols = [], []
+    side_samples = []
+    n_ses = 12 if ctx.quick else 40
+    all_ses = sessions(n_ses)
+    side_jobs = [dict(kind="cells", depth=4 if ctx.quick else 5)]
+    side_jobs += [dict(kind="sessions", sessions=[x for x in all_ses if x["magics"] == m and x["cells"] == c]) for m in SESSION_MAGICS for c in SESSION_CELLS]
+    side_jobs += [dict(kind="pytest", names=c) for c in pytest_cases(ctx.tier)]
     for i, P in enumerate(fams):
-        r = _bfs(ctx, P, tmp, pool, sw, with_cells=(4 if ctx.quick else 5) if i == 0 else 0)
+        r = _bfs(ctx, P, tmp, pool, sw, side_jobs if i == 0 else ())
         seen_all |= r["seen"]
         stats_all.append(r["stats"])
         viols += r["viols"]
-        samples += sorted(r["samples"], key=lambda x: (len(x["history"]), repr(x)))[:3]
+        samples += sorted(r["samples"], key=lambda x: (len(x["history"]), repr(x)))[:2]
         per_level += r["per_level"]
         fam_cov.append(dict(family=P["name"], bounds=P["text"], states=len(r["seen"]), transitions=r["stats"].get("transitions", 0)))
-        if r["cells"] is not None:
-            cells_cov = r["cells"]["cells"]
-            viols += r["cells"]["viols"]
-            samples += r["cells"]["samples"]
+        for o in r["side"]:
+            if "cells" in o:
+                cells_cov = o["cells"]
+                cell_viols += o["viols"]
+            elif "sessions" in o:
+                ses_cov.append(o["sessions"])
+                cell_viols += o["viols"]
+            else:
+                pt_cov.append(o["pytest"])
+                pt_viols += o["viols"]
+            side_samples += o["samples"]
         if r["stopped"] is not None:
             stopped = f"{P['name']}:{r['stopped']}"
             break
+    ses_cov = common.merge_counts(ses_cov)
+    pt_cov = common.merge_counts(pt_cov)
+    for kind in ("ipython_history", "ipython_session", "pytest_session"):  # one sample of each side space
+        samples += [x for x in side_samples if kind in x][:1]
     stats = common.merge_counts(stats_all)
     # confirm every reported violation twice, from a reset world, without the explorer
-    out_v = []
+    out_v = _confirm_cells(cell_viols)
+    for v in pt_viols:
+        # a subprocess session is a fresh process by construction; confirmed once more
+        if replay(v["replay"])["violates"]:
+            out_v.append(Violation(**v))
+        else:
+            out_v.append(Violation(key=v["key"] + ":unstable", what=v["what"] + " [a second identical session did not show it]", replay=v["replay"]))
     if viols:
         common.bind_repo()
         w = _world(tmp)
@@ -580,16 +976,26 @@ def _run(ctx, tmp, pool, sw):
                     replay=dict(kind="process-state-leak", first=v0["replay"], keys=sorted({u["key"] for u in unrepro})[:20]),
                 )
             )
-    transitions = stats.get("transitions", 0) + (cells_cov or {}).get("transitions", 0)
+    transitions = stats.get("transitions", 0) + (cells_cov or {}).get("transitions", 0) + ses_cov.get("operations", 0) + pt_cov.get("modules_observed", 0)
     cov = dict(
         states=len(seen_all) + (cells_cov or {}).get("states", 0),
         transitions=transitions,
         traces_validated_against_impl=transitions,
-        samples=samples[:7] or [dict(note="no sample collected")],
+        samples=samples[:9] or [dict(note="no sample collected")],
         forest_states=len(seen_all),
         forest_transitions=stats.get("transitions", 0),
         state_rebuilds_checked_against_recorded_key=stats.get("replays", 0),
         ipython=cells_cov,
+        ipython_sessions=dict(ses_cov, cells_per_session=n_ses, space="magics {A | A,B before the first cell | A, then B after half of the cells} x cells {one-def g0 g1 g0 .. | forest-module r0 r1 r0 .. | alternately} "
+                              "x {no gc, gc.collect() after every cell}; every operation judged (the cell just run: instrumented by a magic used so far, all its definitions alike; everything defined earlier, "
+                              "incl. what the factories of earlier cells define now: unchanged)"),
+        pytest_sessions=dict(pt_cov, name_sets=pytest_cases(ctx.tier), project=sorted(PT_FILES), note="real `python -m pytest --jaxtyping-packages=<names>,<spy A>` in a subprocess (first case: without the option); "
+                             "pytest's AssertionRewritingHook is on sys.meta_path before pytest_configure installs the hook; every module of the project probed at pytest_sessionfinish"),
+        foreign_finder_operations=stats.get("foreign_ops", 0),
+        loads_with_foreign_finder_present=stats.get("loads_with_foreign_finder_present", 0),
+        instrumented_loads_with_foreign_finder_present=stats.get("instrumented_loads_with_foreign_finder_present", 0),
+        instrumented_loads_hook_installed_after_foreign_finder=stats.get("instrumented_loads_hook_installed_after_foreign_finder", 0),
+        dontcare_loads_foreign_finder_put_in_front_later=stats.get("dontcare_loads_foreign_finder_put_in_front_later", 0),
         families=fam_cov,
         per_level=per_level,
         import_transitions=stats.get("imports", 0),
@@ -608,7 +1014,8 @@ def _run(ctx, tmp, pool, sw):
         "factory is CALLED, which the search does at every later point of the history (well-typed call, which tells the spy; ill-typed call for spy-less ones and, "
         "after uninstall / leave, for make() under a spy too)",
         alphabet=ALPHABET,
-        bounds="; ".join(f"{f['name']}: {f['text']}" for f in fams) + "; IPython: histories of length <= " + ("4" if ctx.quick else "5") + " over {magic A, magic B, cell g0, cell g1}",
+        bounds="; ".join(f"{f['name']}: {f['text']}" for f in fams) + "; IPython: histories of length <= " + ("4" if ctx.quick else "5") + " over {magic A, magic B, cell g0, cell g1}, and 18 sessions of "
+        + f"{n_ses} cells; pytest: {len(pytest_cases(ctx.tier))} subprocess sessions",
         exhaustive=stopped is None,
         stopped_after_level_with_violations=stopped,
     )
@@ -629,6 +1036,10 @@ def _run(ctx, tmp, pool, sw):
             "don't-care: when two active hooks with different checkers cover a module, either checker is accepted",
             "don't-care: pytest_configure refusing (RuntimeError 'already imported') counts as 'no hook installed'; the refusal itself is not judged",
             "don't-care (IPython): after two different magics a cell may run with either checker",
+            "don't-care (foreign finders): a module covered by live installs may load plain when a foreign finder was put at the FRONT of sys.meta_path after every covering install call "
+            "(the import protocol asks it first); a foreign finder that was there before a covering install call, or that sits anywhere behind the front, never excuses a plain load; "
+            "what happens to the foreign finder itself is not judged",
+            "don't-care (pytest sessions): the exit status of a session that wrote its observation; conftest files that pytest imports before pytest_configure are not part of the project",
         ],
     )
 
@@ -637,9 +1048,33 @@ def replay(rep, _w=None):
     common.bind_repo()
     if rep["kind"] == "cells":
         cw = worlds.CellWorld()
-        state, probs = _cells_run(cw, [list(o) for o in rep["history"]])
+        exp = tuple(rep.get("expect") or ())
+        hist = [list(o) for o in rep["history"]]
+        # 'stretch' (replays of ':unstable' observations): the session goes on with more cells of the kind it ended with -
+        # a longer history of the same shape, judged by the same oracle; what the recorded history showed at its last
+        # cell depends on interpreter state, and shows at one of the following cells if not at that one
+        cells = [o for o in hist if o[0] in ("cell", "rich")]
+        more = []
+        for i in range(int(rep.get("stretch", 0)) if cells else 0):
+            more.append([cells[-1][0], (cells[-1][1] + 1 + i) % 2])
+            if ["gc"] in hist:
+                more.append(["gc"])
+        hit, state, n, at = [], None, 0, None
+        for n in range(1, int(rep.get("attempts", 1)) + 1):
+            state, steps = _cells_exec(cw, hist + more)
+            for at in range(len(hist) - 1, len(hist) + len(more)):
+                hit = [p for p in steps[at] if not exp or (p[0], p[1]) == exp]
+                if hit:
+                    break
+            if hit:
+                break
         cw.reset()
-        return dict(violates=bool(probs), state=state, problems=[list(p) for p in probs])
+        return dict(violates=bool(hit), attempts=n, operations=len(hist) + len(more), at_operation=(at + 1 if hit else None), state=state, problems=[list(p) for p in hit])
+    if rep["kind"] == "pytest":
+        res, probs = _pytest_run_case(list(rep["names"]))
+        exp = tuple(rep.get("expect") or ())
+        hit = [p for p in probs if not exp or (p[0], p[1]) == exp]
+        return dict(violates=bool(hit), exit_status=res["rc"], observed=(res["out"] or {}).get("tags"), problems=[list(p) for p in probs])
     if rep["kind"] == "process-state-leak":
         return dict(violates=None, note="observed during the search only; see 'first' for the history whose outcome depended on earlier process history")
     own = _w is None
